@@ -317,7 +317,7 @@ Qed.
    preserves values on graphs without ArrayToVector / Zip / A2B / B2A *)
 Definition meta_hyps (nodes : list node) : Prop :=
   const_typed nodes /\
-  (forall nd x, In nd nodes -> n_op nd = OConstant (TScalar U64) (VArr [x]) -> 0 <= x < 2 ^ 64) /\
+  (forall nd, In nd nodes -> Z.of_nat (length (n_deps nd)) < 2 ^ 64) /\
   (forall nd, In nd nodes -> simple_meta (n_op nd) = true) /\
   meta_typed nodes.
 
@@ -325,7 +325,7 @@ Theorem meta_sem_ok_simple nodes o p :
   meta_hyps nodes -> opt_meta nodes o = Ok p -> pass_sem_ok nodes p.
 Proof.
   intros (Ct & Rg & Sm & Ty) H tape vals V tape' Tc. apply eval_graph_nodes_valuation in V.
-  destruct (meta_sem_thm _ _ _ _ _ V Ct Rg Sm Ty H) as (_ & K).
+  destruct (meta_sem_thm (fun _ _ => TTuple []) _ _ _ _ _ V Ct Rg Sm Ty H) as (_ & _ & K).
   destruct (K tape' Tc) as (vals' & V' & S). exists vals'. split; auto. now apply eval_graph_nodes_valuation.
 Qed.
 
@@ -339,7 +339,7 @@ Theorem meta_sem_transport nodes o p tape vals :
                            nth_error (po_map p) (Z.to_nat x) = Some (po_output p)).
 Proof.
   intros (Ct & Rg & Sm & Ty) H V. pose proof V as V0. apply eval_graph_nodes_valuation in V.
-  destruct (meta_sem_thm _ _ _ _ _ V Ct Rg Sm Ty H) as (F & K).
+  destruct (meta_sem_thm (fun _ _ => TTuple []) _ _ _ _ _ V Ct Rg Sm Ty H) as (F & _ & K).
   destruct (K _ (transport_compat _ _ _ tape F)) as (vals' & V' & S).
   exists vals'. split; [now apply eval_graph_nodes_valuation|]. split; auto.
   now apply meta_struct_thm in H.
